@@ -22,7 +22,7 @@ theorem src_saturating_rounding_mul32_eq_model (a b : Int) :
 /-- `rounding_divide_by_pot(x, exponent)`, all Python ints -/
 theorem src_rounding_divide_by_pot_eq_model (x e : Int) :
     Agrees errRel (rounding_divide_by_pot (.py x) (.py e)) (roundingDivideByPot x e) := by
-  rw [rdbp_spec .py x e (by py_side) trivial (Or.inl rfl), mrdbp_spec]
+  rw [rdbp_spec .py x e (by py_side) trivial, mrdbp_spec]
   py_exec [errRel]
   py_finish
 
@@ -88,7 +88,7 @@ theorem src_rescale_eq_model (src dst x : Int) :
   unfold FpMath.rescale saturatingRoundingMultiplyByPot shiftLeft32 chk32 pow2
   delta i32min i32max
   py_exec [Gen.SrcFpMath.rescale, saturating_rounding_multiply_by_pot, shift_left32, fits32_iff, errRel, mrdbp_spec,
-    rdbp_spec .py x (-(src - dst)) (by py_side) trivial (Or.inl rfl)]
+    rdbp_spec .py x (-(src - dst)) (by py_side) trivial]
   py_finish
 
 /-- `exp_on_interval_between_negative_one_quarter_and_0_excl(a)`, all Python ints -/
@@ -110,26 +110,24 @@ theorem src_exp_on_negative_values_eq_model (a : Int) :
     py_exec [exp_on_negative_values, fits32_iff, errRel, if_pos, if_neg]
     trivial
 
-/-- `multiply_by_quantized_multiplier(x, scale, shift)`, all Python ints with `shift ≤ 62` (right shift
-    ≤ 31: the domain of the TFLite reference, see `C19.mbqm_eq`).  Beyond that the source and the hand
-    model differ, see `src_multiply_by_quantized_multiplier_differs_witness`. -/
-theorem src_multiply_by_quantized_multiplier_eq_model (x scale shift : Int) (h : shift ≤ 62) :
+/-- `multiply_by_quantized_multiplier(x, scale, shift)`, all Python ints.  (Before /repo 755ba3e —
+    `rounding_divide_by_pot` evaluated `x & mask` in the NumPy type of the product — this held only for
+    `shift ≤ 62`: beyond, the source raised `OverflowError` where the hand model returns a value; the
+    regenerated definition made the obligation fail when the repair landed and the hypothesis could go.) -/
+theorem src_multiply_by_quantized_multiplier_eq_model (x scale shift : Int) :
     Agrees errRel (multiply_by_quantized_multiplier (.py x) (.py scale) (.py shift))
       (multiplyByQuantizedMultiplier x scale shift) := by
   unfold multiplyByQuantizedMultiplier
   py_exec [multiply_by_quantized_multiplier, srm32_rw, msrm32_spec, rdbp_rw, mrdbp_spec, errRel]
   py_finish
 
-/-- Beyond the reference's domain the hand model and the source differ: for `shift = 95` the right
-    shift is 64, the mask `(1 << 64) - 1` does not fit the `np.int64` product and NumPy raises
-    `OverflowError`, whereas the model (unbounded integers) returns 0.  Not reachable from Vela
-    (`quantise_scale` yields shifts < 64); recorded so that the `shift ≤ 62` hypothesis above is not
-    mistaken for a proof artefact. -/
-theorem src_multiply_by_quantized_multiplier_differs_witness :
-    multiply_by_quantized_multiplier (.py 5) (.py 1073741824) (.py 95) = .error .overflow ∧
+/-- non-vacuity / regression witness of the repaired corner: right shift 64 on an `np.int64` product -/
+theorem src_multiply_by_quantized_multiplier_shift95_witness :
+    multiply_by_quantized_multiplier (.py 5) (.py 1073741824) (.py 95) = .ok (.py 0) ∧
     multiplyByQuantizedMultiplier 5 1073741824 95 = .ok 0 := by
   constructor
   · py_exec [multiply_by_quantized_multiplier, saturating_rounding_mul32, rounding_divide_by_pot]
+    rfl
   · decide
 
 end VelaVerif.Props.C19Src
